@@ -47,6 +47,38 @@ package yubiattest
 //@   len(hashed) == hsize(hash) && kOf(pub) >= p1len(hash) + hsize(hash) + 11 &&
 //@   (wf1(kOf(pub), mOf(pub, sig), hash, elems(hashed), off(hashed)) || wf2(kOf(pub), mOf(pub, sig), hash, elems(hashed), off(hashed)))
 
+//@ # digest of `signed` under hash h as produced by hash.Hash (assumed model in /verif/external/crypto.spec)
+//@ ghost func digestOf(h int, signed []byte) bytes = hdigest(h, happend(hempty(h), elems(signed), off(signed), len(signed)))
+//@ ghost func pkcsOKd(pub *rsa.PublicKey, hash int, d bytes, sig []byte) bool =
+//@   kOf(pub) >= p1len(hash) + hsize(hash) + 11 &&
+//@   (wf1(kOf(pub), mOf(pub, sig), hash, d, 0) || wf2(kOf(pub), mOf(pub, sig), hash, d, 0))
+//@ # signature-algorithm label -> digest (pinned from the property statement; x509 numbering)
+//@ ghost pure func hashOf(algo int) int =
+//@   (algo == 3 || algo == 7 || algo == 9) ? 3 : (algo == 4 || algo == 8 || algo == 10) ? 5 :
+//@   (algo == 5 || algo == 11) ? 6 : (algo == 6 || algo == 12) ? 7 : 0
+
+//@ func checkSignature(algo, signed, signature, publicKey)
+//@   requires typeof(publicKey) == *rsa.PublicKey ==> (publicKey.(*rsa.PublicKey) != nil && publicKey.(*rsa.PublicKey).N != nil)
+//@   ensures [accept-only-wellformed] err == nil ==> typeof(publicKey) == *rsa.PublicKey && supported(hashOf(algo)) &&
+//@     pkcsOKd(publicKey.(*rsa.PublicKey), hashOf(algo), digestOf(hashOf(algo), signed), signature)
+//@   ensures [md2-md5-rejected] (algo == 1 || algo == 2) ==> err != nil
+//@   ensures [unsupported-rejected] hashOf(algo) == 0 ==> err != nil
+//@   ensures [non-rsa-rejected] typeof(publicKey) != *rsa.PublicKey ==> err != nil
+//@   ensures [wellformed-accepted] (typeof(publicKey) == *rsa.PublicKey && supported(hashOf(algo)) && hashAvailable(hashOf(algo)) &&
+//@     pkcsOKd(publicKey.(*rsa.PublicKey), hashOf(algo), digestOf(hashOf(algo), signed), signature)) ==> err == nil
+
+//@ func NewAttestorWithCAPool(roots)
+//@   ensures result != nil && fresh(result) && result.roots == roots
+
+//@ func (*Attestor).Attest(a, f9Cert, attestCert)
+//@   requires a != nil && f9Cert != nil && attestCert != nil
+//@   requires typeof(f9Cert.PublicKey) == *rsa.PublicKey ==> (f9Cert.PublicKey.(*rsa.PublicKey) != nil && f9Cert.PublicKey.(*rsa.PublicKey).N != nil)
+//@   ensures [chain-and-signature] result == nil ==> chainOK(f9Cert, a.roots, nil, true, "", 0) &&
+//@     typeof(f9Cert.PublicKey) == *rsa.PublicKey && supported(hashOf(attestCert.SignatureAlgorithm)) &&
+//@     pkcsOKd(f9Cert.PublicKey.(*rsa.PublicKey), hashOf(attestCert.SignatureAlgorithm),
+//@       digestOf(hashOf(attestCert.SignatureAlgorithm), attestCert.RawTBSCertificate), attestCert.Signature)
+//@   ensures [chain-required] !chainOK(f9Cert, a.roots, nil, true, "", 0) ==> result != nil
+
 //@ func leftPad(input, size)
 //@   requires size >= 0
 //@   ensures len(out) == size && (size > 0 ==> fresh(arr(out)))
